@@ -307,9 +307,13 @@ def Tolerant.client (t : Tolerant) (f : Frame) : Verdict Tolerant :=
     match m0.client f with
     | .error r => .error r
     | .ok m' =>
-      let fresh := m0.streams.filterMap fun s =>
-        if t.grace.any (·.1 == s.id) then none else some (s.id, s.win, m0.maxFrame)
-      .ok { m := m', grace := t.grace ++ fresh, graceConc := t.graceConc.orElse fun _ => some m0.maxConc }
+      -- per stream: the most generous limits since its last DATA frame (a writer may have been
+      -- blocked at the earlier acknowledgements and have sized its frame only afterwards)
+      let grace := m0.streams.map fun s =>
+        match t.grace.find? (·.1 == s.id) with
+        | some (_, w, mf) => (s.id, (if w > s.win then w else s.win), (if mf > m0.maxFrame then mf else m0.maxFrame))
+        | none => (s.id, s.win, m0.maxFrame)
+      .ok { m := m', grace := grace, graceConc := t.graceConc.orElse fun _ => some m0.maxConc }
   | .data id len es =>
     let rest := t.grace.filter (·.1 != id)
     match m0.client f with
